@@ -418,7 +418,8 @@ func (p *parser) parsePostfix(x Expr) Expr {
 var itemKW = map[string]bool{"spec": true, "pred": true, "func": true, "extern": true, "trusted": true, "lemma": true,
 	"invariant": true, "monitor": true, "directive": true, "axiom": true}
 var clauseKW = map[string]bool{"requires": true, "ensures": true, "assigns": true, "decreases": true, "loop": true,
-	"behavior": true, "assumes": true, "ghost": true, "pure": true, "mayalloc": true, "prop": true, "cases": true}
+	"behavior": true, "assumes": true, "ghost": true, "pure": true, "mayalloc": true, "prop": true, "cases": true,
+	"inv": true, "storerule": true, "lockrequires": true}
 
 type logical struct {
 	text string
@@ -551,10 +552,13 @@ func ParseFile(name, src string) (f *File, err error) {
 			p.eof()
 			f.TypeInvs = append(f.TypeInvs, ti)
 		case "monitor":
-			// monitor T.mu guards a, b, c
+			// monitor (s *T) mu guards a, b, c
 			m := &Monitor{Pos: l.pos}
+			p.expect("(")
+			m.Recv = p.ident()
+			p.expect("*")
 			m.Type = p.ident()
-			p.expect(".")
+			p.expect(")")
 			m.Mu = p.ident()
 			if p.ident() != "guards" {
 				p.fail("expected 'guards'")
@@ -639,6 +643,26 @@ func ParseFile(name, src string) (f *File, err error) {
 			cur.Pure = true
 		case "mayalloc":
 			cur.Mayalloc = true
+		case "inv":
+			if curMon == nil {
+				p.fail("inv outside of a monitor")
+			}
+			curMon.Inv = append(curMon.Inv, p.parseClause(l))
+		case "storerule":
+			// storerule <field>: <expr over new, old and the receiver>
+			if curMon == nil {
+				p.fail("storerule outside of a monitor")
+			}
+			c := p.parseClause(l)
+			if c.Label == "" {
+				p.fail("storerule needs a field label")
+			}
+			curMon.StoreRules = append(curMon.StoreRules, c)
+		case "lockrequires":
+			if cur == nil {
+				p.fail("lockrequires outside of a function contract")
+			}
+			cur.LockRequires = append(cur.LockRequires, p.parseClause(l))
 		case "cases":
 			if cur == nil {
 				p.fail("cases outside of a function contract")
